@@ -31,10 +31,22 @@ impl std::error::Error for ChurnErr {}
 
 /// one subscription of the upstream source
 struct UpSub {
-    sink: Arc<Sink<V>>,
+    /// dropped once the subscription is over (keeps a long run's memory flat)
+    sink: Mutex<Option<Arc<Sink<V>>>>,
     pulls: AtomicUsize,
     stops: AtomicUsize,
     ended: std::sync::atomic::AtomicBool,
+    /// number of stops received when the source ended by itself
+    stops_when_ended: AtomicUsize,
+}
+
+impl UpSub {
+    fn send(&self, m: Message<V, Never>) {
+        let s = self.sink.lock().unwrap().clone();
+        if let Some(s) = s {
+            s(m);
+        }
+    }
 }
 
 struct Up {
@@ -48,10 +60,11 @@ impl Up {
             (move |message: Message<Never, V>| {
                 if let Message::Handshake(sink) = message {
                     let sub = Arc::new(UpSub {
-                        sink,
+                        sink: Mutex::new(Some(sink)),
                         pulls: AtomicUsize::new(0),
                         stops: AtomicUsize::new(0),
                         ended: std::sync::atomic::AtomicBool::new(false),
+                        stops_when_ended: AtomicUsize::new(0),
                     });
                     me.subs.lock().unwrap().push(Arc::clone(&sub));
                     let tb: Arc<Source<V>> = {
@@ -63,13 +76,14 @@ impl Up {
                                 },
                                 Message::Terminate | Message::Error(_) => {
                                     sub.stops.fetch_add(1, Ordering::SeqCst);
+                                    *sub.sink.lock().unwrap() = None;
                                 },
                                 _ => {},
                             })
                             .into(),
                         )
                     };
-                    (sub.sink)(Message::Handshake(tb));
+                    sub.send(Message::Handshake(tb));
                 }
             })
             .into(),
@@ -187,7 +201,12 @@ pub fn plan_for(seed: u64, index: u64, thorough: bool) -> (ChurnPlan, Rng) {
     (ChurnPlan { cycles, resident, max_attached, end_every }, r)
 }
 
-pub fn run_plan(plan: &ChurnPlan, mut r: Rng) -> ChurnOutcome {
+/// `sink_side_only` (the C04 reading of the same histories): only what share does to its upstream
+/// as a sink is judged - every upstream subscription is told to stop at most once, never after it
+/// ended by itself, and none is left running when every sink has gone. A C12 matter (a datum
+/// missed, an early disposal) ends the history there, because after it the model no longer knows
+/// what a conformant source may still do; the sinks then leave and the C04 clauses are evaluated.
+pub fn run_plan(plan: &ChurnPlan, mut r: Rng, sink_side_only: bool) -> ChurnOutcome {
     let up = Arc::new(Up { subs: Mutex::new(vec![]) });
     let shared: Arc<Source<V>> = Arc::new(callbag::share(up.source()));
     let stray: Arc<Mutex<Vec<(usize, String)>>> = Arc::new(Mutex::new(vec![]));
@@ -214,11 +233,13 @@ pub fn run_plan(plan: &ChurnPlan, mut r: Rng) -> ChurnOutcome {
         }
         tail.push_back(format!("#{} {}", n, s));
     };
+    let mut pending: Option<(&'static str, String)> = None;
     macro_rules! fail {
         ($kind:expr, $($arg:tt)*) => {{
-            out.violation = Some(($kind, format!($($arg)*)));
-            out.tail = tail.iter().cloned().collect();
-            return out;
+            if pending.is_none() {
+                pending = Some(($kind, format!($($arg)*)));
+            }
+            break;
         }};
     }
     let mk_sink = |id: usize| -> Arc<CSink> {
@@ -237,7 +258,7 @@ pub fn run_plan(plan: &ChurnPlan, mut r: Rng) -> ChurnOutcome {
     };
     let mut cycles_done = 0usize;
     let mut resident_attached = false;
-    while cycles_done < plan.cycles {
+    while cycles_done < plan.cycles && pending.is_none() {
         out.ops += 1;
         // choose an operation
         let n = attached.len();
@@ -373,7 +394,7 @@ pub fn run_plan(plan: &ChurnPlan, mut r: Rng) -> ChurnOutcome {
                 next_val += 1;
                 let before: Vec<usize> = attached.iter().map(|s| s.data.load(Ordering::SeqCst)).collect();
                 note(&mut tail, format!("source emits {} ({} attached)", v, attached.len()));
-                (cur.sink)(Message::Data(v));
+                cur.send(Message::Data(v));
                 out.data += 1;
                 for (s, b) in attached.iter().zip(before) {
                     let got = s.data.load(Ordering::SeqCst) - b;
@@ -421,11 +442,13 @@ pub fn run_plan(plan: &ChurnPlan, mut r: Rng) -> ChurnOutcome {
                 note(&mut tail, format!("source {} ({} attached)", if fails { "fails" } else { "completes" }, attached.len()));
                 cur.ended.store(true, Ordering::SeqCst);
                 let stops_before = cur.stops.load(Ordering::SeqCst);
+                cur.stops_when_ended.store(stops_before, Ordering::SeqCst);
                 if fails {
-                    (cur.sink)(Message::Error(Arc::new(ChurnErr)));
+                    cur.send(Message::Error(Arc::new(ChurnErr)));
                 } else {
-                    (cur.sink)(Message::Terminate);
+                    cur.send(Message::Terminate);
                 }
+                *cur.sink.lock().unwrap() = None;
                 for s in attached.iter() {
                     let t = s.terminals.load(Ordering::SeqCst);
                     let owed = attached.iter().filter(|x| Arc::ptr_eq(x, s)).count();
@@ -462,11 +485,53 @@ pub fn run_plan(plan: &ChurnPlan, mut r: Rng) -> ChurnOutcome {
             }
         }
     }
-    // wind down: everyone leaves, upstream is disposed exactly once
-    for s in attached.iter() {
-        s.forget();
+    // wind down: every subscription that is still attached leaves (a sink may always do that)
+    while let Some(s) = attached.pop() {
+        let tb = s.talkbacks.lock().unwrap().pop();
+        if !attached.iter().any(|x| Arc::ptr_eq(x, &s)) {
+            s.gone.store(true, Ordering::SeqCst);
+        }
+        if let Some(tb) = tb {
+            note(&mut tail, format!("wind-down: detach one subscription of S{}", s.id));
+            tb(Message::Terminate);
+        }
+        if !attached.iter().any(|x| Arc::ptr_eq(x, &s)) {
+            s.forget();
+        }
     }
-    out.tail = vec![];
+    // share as a sink of its upstream (C04): told to stop at most once, never after it ended by
+    // itself, and no subscription left running once every sink has gone
+    let mut sink_side: Option<(&'static str, String)> = None;
+    for (k, u) in up.subs.lock().unwrap().iter().enumerate() {
+        let stops = u.stops.load(Ordering::SeqCst);
+        let ended = u.ended.load(Ordering::SeqCst);
+        if stops > 1 {
+            sink_side = Some(("churn-upstream-stopped-twice", format!("upstream subscription #{} was told to stop {} times", k, stops)));
+            break;
+        }
+        if ended && stops > u.stops_when_ended.load(Ordering::SeqCst) {
+            sink_side = Some(("churn-upstream-stopped-after-it-ended", format!("upstream subscription #{} ended by itself and was then told to stop", k)));
+            break;
+        }
+        if !ended && stops == 0 {
+            sink_side = Some((
+                "churn-upstream-orphaned",
+                format!("upstream subscription #{} is still running although every sink has left", k),
+            ));
+            break;
+        }
+    }
+    out.violation = if sink_side_only {
+        sink_side
+    } else if pending.is_some() {
+        pending
+    } else {
+        // "upstream is disposed exactly when the last attached sink detaches" also at the very end
+        sink_side
+    };
+    if out.violation.is_some() {
+        out.tail = tail.iter().cloned().collect();
+    }
     out
 }
 
@@ -481,13 +546,14 @@ pub fn run(o: &Opts, rep: &mut Report) {
         let mut hs = vec![];
         for t in 0..nthreads {
             let known = known.clone();
+            let prop = o.prop.clone();
             hs.push(s.spawn(move || {
                 let mut rep = Report::default();
                 let mut i = t;
                 while i < total {
                     let (plan, rng) = plan_for(seed, i, thorough);
-                    let out = run_plan(&plan, rng);
-                    let id = format!("E1c:C12:{}:{}:{}", seed, if thorough { "thorough" } else { "quick" }, i);
+                    let out = run_plan(&plan, rng, prop == "C04");
+                    let id = format!("E1c:{}:{}:{}:{}", prop, seed, if thorough { "thorough" } else { "quick" }, i);
                     rep.evaluations += 1;
                     rep.events += out.ops;
                     let e = rep.per_op.entry("share churn".into()).or_insert([0; 3]);
@@ -504,11 +570,11 @@ pub fn run(o: &Opts, rep: &mut Report) {
                     rep.exercised.insert(key.to_string(), cur.max(out.max_attaches_on_one_subscription));
                     if let Some((kind, detail)) = &out.violation {
                         let sig = format!("share/{}", kind);
-                        if let Some(k) = known.iter().find(|k| k.signature == sig && k.property == "C12") {
+                        if let Some(k) = known.iter().find(|k| k.signature == sig && k.property == prop) {
                             let e = rep.known_hits.entry(sig).or_insert((0, k.text.clone()));
                             e.0 += 1;
                         } else {
-                            rep.add_violation("C12", &sig, detail, &id, outcome_json(&plan, &out).set("case_id", J::s(&id)));
+                            rep.add_violation(&prop, &sig, detail, &id, outcome_json(&plan, &out).set("case_id", J::s(&id)));
                         }
                     }
                     i += nthreads;
@@ -553,7 +619,7 @@ fn outcome_json(plan: &ChurnPlan, out: &ChurnOutcome) -> J {
         .set("last_operations", J::arr(out.tail.iter().map(|l| J::s(l))))
 }
 
-/// case id: E1c:C12:<seed>:<tier>:<index>
+/// case id: E1c:<C12|C04>:<seed>:<tier>:<index>
 pub fn replay(_o: &Opts, parts: &[&str]) -> i32 {
     if parts.len() < 5 {
         eprintln!("malformed churn case id");
@@ -563,7 +629,7 @@ pub fn replay(_o: &Opts, parts: &[&str]) -> i32 {
     let thorough = parts[3] == "thorough";
     let index: u64 = parts[4].parse().unwrap_or(0);
     let (plan, rng) = plan_for(seed, index, thorough);
-    let out = run_plan(&plan, rng);
+    let out = run_plan(&plan, rng, parts[1] == "C04");
     println!("{}", outcome_json(&plan, &out).pretty());
     match &out.violation {
         Some((k, d)) => {
